@@ -286,3 +286,95 @@ def pchip_end_slopes(ctx) -> None:
            "left end: (δ[0], δ[1]); right end: (δ[-1], δ[-2])" if okc else
            "_pchip_derivatives hands _limit_endpoint the two end secants in the wrong order: the end slope is limited against "
            "the inner secant instead of the boundary one")
+
+
+def mps_apply_operator(ctx) -> None:
+    """MPS.apply(k, A) replaces factor k (bond, physical, bond) by Σ_j A[i, j]·factor[a, j, b]: the operator's *column*
+    index is contracted with the physical leg and its row index takes the leg's place.  Accepted spellings: `A @ factor`
+    (broadcast matmul), tensordot with dims=([1],[1]) in either operand order followed by the transposition that puts the
+    new physical index in the middle, einsum 'ij,ajb->aib'.  (With the row index contracted the transpose is applied:
+    invisible for symmetric operators, and the relaxation jump |g><r| becomes an excitation.)"""
+    prog = ctx.prog
+    K = prog.cls("emu_mps.mps.MPS")
+    f = K.methods["apply"]
+    ctx.require(len(f.params) >= 3, "APPLY-op: MPS.apply(self, qubit_index, single_qubit_operator) expected")
+    q, A = ("param", f.qualname, f.params[1]), ("param", f.qualname, f.params[2])
+    fac = ("sub", ("attr", SELF, "factors"), q)
+    paths = [p for p in Interp(prog, K, inline=lambda c, r, d_: False).run(f) if p.status == "return"]
+    ctx.require(paths, "APPLY-op: MPS.apply has no returning path")
+
+    def is_op(t):
+        t = strip_typed(t)
+        while t[0] == "mcall" and t[2] in ("to", "cpu", "clone", "contiguous", "type", "cuda"):
+            t = strip_typed(t[1])
+        return t == A
+
+    def is_fac(t):
+        t = strip_typed(t)
+        while t[0] == "mcall" and t[2] in ("to", "clone", "contiguous"):
+            t = strip_typed(t[1])
+        return t == fac
+
+    bad = None
+    n = 0
+    for p in paths:
+        st = [e for e in p.events if e.kind == "setitem" and strip_typed(e.target[0]) == ("attr", SELF, "factors") and strip_typed(e.target[1]) == q]
+        if len(st) != 1:
+            bad = f"{len(st)} stores into self.factors[qubit_index]"
+            continue
+        n += 1
+        v = strip_typed(st[0].value)
+        perm = None            # permutation applied after a tensordot: list of output axes in terms of the raw result
+        while v[0] == "mcall" and v[2] in ("contiguous", "clone"):
+            v = strip_typed(v[1])
+        if v[0] == "mcall" and v[2] == "transpose" and len(v[3]) == 2:
+            a_, b_ = (strip_typed(x)[1] for x in v[3])
+            perm = ("transpose", a_, b_)
+            v = strip_typed(v[1])
+        elif v[0] == "mcall" and v[2] == "permute":
+            perm = ("permute",) + tuple(strip_typed(x)[1] for x in (strip_typed(v[3][0])[1] if len(v[3]) == 1 and strip_typed(v[3][0])[0] in ("tuple", "list") else v[3]))
+            v = strip_typed(v[1])
+        ok = False
+        if v[0] == "bin" and v[1] == "MatMult":
+            ok = perm is None and is_op(v[2]) and is_fac(v[3])
+            why = "the new factor is not `operator @ factor`"
+        elif v[0] == "call" and v[1] == "torch.tensordot" and len(v[2]) == 2:
+            dims = dict(v[3]).get("dims") or (v[2][2] if len(v[2]) > 2 else None)
+            d = strip_typed(dims) if dims is not None else None
+            pair = None
+            if d is not None and d[0] in ("tuple", "list") and len(d[1]) == 2:
+                x, y = (strip_typed(z) for z in d[1])
+                if x[0] in ("list", "tuple") and y[0] in ("list", "tuple") and len(x[1]) == 1 and len(y[1]) == 1:
+                    pair = (strip_typed(x[1][0])[1], strip_typed(y[1][0])[1])
+            L, R = v[2]
+            if pair is None:
+                why = "tensordot dims not understood"
+            elif is_fac(L) and is_op(R):
+                # raw result axes: (a, b, i) with i = the operator's free index
+                ok = pair == (1, 1) and perm in (("transpose", 1, 2), ("transpose", 2, 1), ("transpose", -1, -2), ("transpose", -2, -1), ("permute", 0, 2, 1))
+                why = f"tensordot(factor, operator, dims=([{pair[0]}],[{pair[1]}])) contracts the operator's {'row' if pair[1] == 0 else 'column'} index" + \
+                    ("" if perm else " and the result is not transposed back to (bond, physical, bond)")
+            elif is_op(L) and is_fac(R):
+                ok = pair == (1, 1) and perm in (("transpose", 0, 1), ("transpose", 1, 0), ("permute", 1, 0, 2))
+                why = f"tensordot(operator, factor, dims=([{pair[0]}],[{pair[1]}])) contracts the operator's {'row' if pair[0] == 0 else 'column'} index"
+            else:
+                why = "tensordot operands are not (factor, operator)"
+        elif v[0] == "call" and v[1] == "torch.einsum" and len(v[2]) == 3 and strip_typed(v[2][0])[0] == "const":
+            spec = str(strip_typed(v[2][0])[1]).replace(" ", "")
+            ins, out = spec.split("->") if "->" in spec else (spec, "")
+            parts = ins.split(",")
+            ops = [strip_typed(x) for x in v[2][1:]]
+            why = f"einsum '{spec}' is not Σ_j A[i,j]·factor[a,j,b] → [a,i,b]"
+            if len(parts) == 2 and perm is None:
+                for (sa_, ta), (sb_, tb) in (((parts[0], ops[0]), (parts[1], ops[1])), ((parts[1], ops[1]), (parts[0], ops[0]))):
+                    if is_op(ta) and is_fac(tb) and len(sa_) == 2 and len(sb_) == 3 and sa_[1] == sb_[1] and \
+                            out == sb_[0] + sa_[0] + sb_[2] and len({sa_[0], sb_[0], sb_[1], sb_[2]}) == 4:
+                        ok = True
+        else:
+            why = f"self.factors[qubit_index] = {show(v)[:60]}"
+        if not ok:
+            bad = why
+    ctx.ob("APPLY-op", "single-site operator applied, not its transpose", f.loc(), bad is None and n >= 1,
+           "new factor[a,i,b] = Σ_j A[i,j]·factor[a,j,b]" if bad is None and n >= 1 else
+           f"MPS.apply: {bad}: the transpose of the operator is applied (wrong for every non-symmetric operator: σ±, σʸ, the "
+           f"relaxation jump |g><r|)")
